@@ -337,6 +337,13 @@ case("the last element of a list built by appends is the last value assigned", {
 case("last-of kept: the list is read elsewhere too", {"m": "def f(es, m, g):\n    ins = []\n    for e in es:\n        ins.append(e)\n    r = ins[-1] if ins else None\n    return g(r, ins)\n"},
      "m", "f", has=["ins"])
 
+case("None test kept: a later iteration of the enclosing loop arrives with another binding", {"m": "class A(object):\n    def _r(self, x):\n        c = x()\n        if not c:\n            raise ValueError(c)\n        return c, bytes(x())\n    def f(self, x, g):\n        c, d = self._r(x)\n        while True:\n            if c is None:\n                return d\n            c = g(d)\n"},
+     "m", "f", has=["is not None"])
+
+case("copy-in kept: the helper is called in a loop and re-binds its parameter; the caller's variable must stay what it was (seed C05-p)",
+     {"m": "class A(object):\n    def _h(self, k, a, r):\n        if a != 1:\n            raise ValueError(a)\n        c, a = r(k)\n        return c\n    def f(self, ks, r):\n        c, a = r(0)\n        for k in ks:\n            c = self._h(k, a, r)\n            if c == 2:\n                return True\n        return False\n"},
+     "m", "f", has=["_i1_a"])
+
 
 def main():
     bad = 0
